@@ -286,6 +286,7 @@ def solve(cfg: CFG, init, transfer, join, max_iter: int = 200000):
             if o is None:
                 continue
             old = ins.get(s)
+            cfg._join_target = s          # lets a join keep per-node widening decisions (see constprop.ConstFlow._join)
             new = o if old is None else join(old, o)
             if old is None or new != old:
                 ins[s] = new
